@@ -45,9 +45,11 @@ static void stat(const std::string & k, long n = 1) { std::printf("#stat %s %ld\
 
 // ------------------------------------------------------------------------------------------ candidates
 enum RowKind { VALID, UGLY, OFF_SMALL, SUBTHR, N_GOOD,   // accepted by the 3D setters
-               OFF_BIG = N_GOOD, NEG, TINYNEG, SUMBAD, NANV, PINFV, NINFV, ZERO, BOUNDARY, N_KINDS };
+               OFF_BIG = N_GOOD, NEG, TINYNEG, SUMBAD, NANV, PINFV, NINFV, ZERO, BOUNDARY,
+               SIGNFLIP, ALLNEG, NEGBIG, NANNEG, N_KINDS };
 static const char * kindName[] = {"valid", "ugly", "off_small", "subthreshold", "off_big", "negative", "tiny_negative",
-                                  "sum_not_one", "nan", "pinf", "ninf", "zero_row", "boundary"};
+                                  "sum_not_one", "nan", "pinf", "ninf", "zero_row", "boundary",
+                                  "sign_flipped_entry", "all_negated", "negative_sum_one_big", "nan_and_negative"};
 
 static V1 makeRow(Rng & rng, size_t n, int kind) {
     V1 r = verif::dyadicRow(rng, n, 3, rng.coin(1, 3));
@@ -69,6 +71,12 @@ static V1 makeRow(Rng & rng, size_t n, int kind) {
         case NINFV: r[rng.below(n)] = -Inf; if (n > 1 && rng.coin()) r[(j)] = Inf; break;
         case ZERO: for (auto & x : r) x = 0.0; break;
         case BOUNDARY: r[big] += rng.coin() ? 1e-6 : -1e-6; break;
+        // rows whose ABSOLUTE values sum to one although the row is no distribution (a test on |.| alone lets them through)
+        case SIGNFLIP: { size_t k = big; if (n > 1 && rng.coin()) { for (size_t i = 0; i < n; ++i) if (i != big && r[i] > 0) k = i; } r[k] = -r[k]; break; }
+        case ALLNEG: for (auto & x : r) x = -x; break;
+        // sum exactly one with a large negative entry: (-0.5, 1.5)
+        case NEGBIG: if (n > 1) { for (auto & x : r) x = 0.0; r[big] = 1.5; r[j] = -0.5; } else r[0] = -1.0; break;
+        case NANNEG: r[big] = NaN; if (n > 1) r[j] = -0.25; break;
     }
     return r;
 }
@@ -131,10 +139,14 @@ static Matrix3D toDense3(const V3 & t) {   // t[a][row][col]
     for (auto & a : t) { Matrix2D x(a.size(), a[0].size()); for (size_t i = 0; i < a.size(); ++i) for (size_t j = 0; j < a[0].size(); ++j) x(i, j) = a[i][j]; m.push_back(x); }
     return m;
 }
+// Eigen sparse inputs come in three storage shapes: compressed without explicit zeros (what the library itself builds),
+// compressed WITH explicitly stored zeros, and uncompressed (insert() without makeCompressed(), spare room in every row)
+static int g_sparseShape = 0;
 static SparseMatrix2D toSparse2(const V2 & a) {
     SparseMatrix2D x(a.size(), a[0].size());
-    for (size_t i = 0; i < a.size(); ++i) for (size_t j = 0; j < a[0].size(); ++j) if (!(a[i][j] == 0.0)) x.insert(i, j) = a[i][j];
-    x.makeCompressed();
+    if (g_sparseShape == 2) x.reserve(Eigen::VectorXi::Constant(a.size(), (int)a[0].size() + 2));
+    for (size_t i = 0; i < a.size(); ++i) for (size_t j = 0; j < a[0].size(); ++j) if (g_sparseShape == 1 || !(a[i][j] == 0.0)) x.insert(i, j) = a[i][j];
+    if (g_sparseShape != 2) x.makeCompressed();
     return x;
 }
 static SparseMatrix3D toSparse3(const V3 & t) { SparseMatrix3D m; for (auto & a : t) m.push_back(toSparse2(a)); return m; }
@@ -216,6 +228,7 @@ template <class M> static std::unique_ptr<M> construct(Rng & rng, Sizes z) {
     using Base = typename Tr<M>::Base;
     const size_t S = z.S, A = z.A, O = z.O;
     std::unique_ptr<M> obj;
+    g_sparseShape = (int)rng.below(4) % 3;
     int which = (int)rng.below(10);
     Line l; l << "C06" << "ctor"; kinds<M>(l); l << P;
     std::string err;
@@ -291,12 +304,15 @@ template <class M> static std::unique_ptr<M> construct(Rng & rng, Sizes z) {
     if (obj) dumpState(l, *obj);
     l.emit();
     stat(std::string("ctor_outcome:") + err);
+    g_sparseShape = 0;
     return obj;
 }
 
 // ------------------------------------------------------------------------------------------ setters
 template <class M> static void oneOp(Rng & rng, M & m) {
     constexpr bool P = Tr<M>::pomdp;
+    g_sparseShape = (int)rng.below(4) % 3;
+    if constexpr (Tr<M>::bsparse || Tr<M>::osparse) stat(std::string("sparse_input_shape:") + (g_sparseShape == 0 ? "compressed" : g_sparseShape == 1 ? "explicit_zeros" : "uncompressed"));
     const size_t S = m.getS(), A = m.getA(); size_t O = 0;
     if constexpr (P) O = m.getO();
     Line l; l << "C06" << "op"; kinds<M>(l);
@@ -326,6 +342,7 @@ template <class M> static void oneOp(Rng & rng, M & m) {
     }
     l << "|"; if (!args.first) l << args.os.str(); l << "|" << err; dumpState(l, m);
     l.emit();
+    g_sparseShape = 0;
     stat("op:" + name); stat("op_outcome:" + err);
 }
 
@@ -629,7 +646,8 @@ template <class E, class M> static void learnedFlat(Rng & rng, const char * file
     if (!m) m = lmCtor<M>(file, cls, 0.75, [&](double d) { if constexpr (std::is_constructible_v<M, const E &, double, bool>) return std::make_unique<M>(exp, d, true); else return std::make_unique<M>(exp, d); });
     auto rows = [](Line & l, const M & mm) { lmRowsFlat(l, mm); };
     for (int i = (int)rng.range(3, 10); i > 0; --i) {
-        switch (rng.below(4)) {
+        switch (rng.below(5)) {
+            case 4: exp.reset(); lmOp(file, cls, "resetSync", 0.0, *m, rows, [&] { m->sync(); }); break;
             case 0: { double d = makeDiscount(rng, false); lmOp(file, cls, "setDiscount", d, *m, rows, [&] { m->setDiscount(d); }); break; }
             case 1: rec(); rec(); lmOp(file, cls, "record", 0.0, *m, rows, [&] {}); break;
             case 2: lmOp(file, cls, "sync", 0.0, *m, rows, [&] { m->sync(); }); break;
@@ -653,7 +671,8 @@ template <class M> static void learnedCoop(Rng & rng, const char * file, const c
     if (!m) m = lmCtor<M>(file, cls, 0.75, make);
     auto rows = [](Line & l, const M & mm) { lmRowsCoop(l, mm); };
     for (int i = (int)rng.range(3, 8); i > 0; --i) {
-        switch (rng.below(3)) {
+        switch (rng.below(4)) {
+            case 3: exp.reset(); lmOp(file, cls, "resetSync", 0.0, *m, rows, [&] { m->sync(); }); break;
             case 0: { double d = makeDiscount(rng, false); lmOp(file, cls, "setDiscount", d, *m, rows, [&] { m->setDiscount(d); }); break; }
             case 1: rec(); rec(); lmOp(file, cls, "record", 0.0, *m, rows, [&] {}); break;
             case 2: lmOp(file, cls, "sync", 0.0, *m, rows, [&] { m->sync(); }); break;
